@@ -1722,6 +1722,7 @@ class Evaluator:
             sub.alias_mode = self.alias_mode
             sub.exact = self.exact
             sub.bound = {"self": base}
+            sub.param_override = {"self": base}      # (`bound` is cleared while a local of the getter is resolved)
             rets = [st for st in ast.walk(g.node) if isinstance(st, ast.Return)]
             if len(rets) != 1 or rets[0].value is None:
                 res = self.ctx.mk(("prop", g.node.name), (base,))
